@@ -204,7 +204,13 @@ mod cluster {
         let sched = setm(&mut g.scheduled_for_deletion_nodes());
         let mut w = serde_json::Map::new();
         for (id, st) in n.wrx.borrow().iter() { w.insert(name_of_cid(id), json!(st.max_version())); }
-        json!({"ns": ns, "live": live, "dead": dead, "sched": sched, "watch": w, "wseq": n.wseq, "cb": n.cb.load(Ordering::SeqCst)})
+        let now = (tokio::time::Instant::now() - start).as_secs() as i64;
+        let mut fd = serde_json::Map::new();
+        for (id, len, sum, elapsed) in g.verif_fd_windows() {
+            let last = match elapsed { Some(e) => now - e.round() as i64, None => -1 };
+            fd.insert(name_of_cid(&id), json!({"n": len, "sum": sum.round() as i64, "last": last}));
+        }
+        json!({"ns": ns, "live": live, "dead": dead, "sched": sched, "watch": w, "fd": fd, "wseq": n.wseq, "cb": n.cb.load(Ordering::SeqCst)})
     }
 
     fn model_msg(from: &SocketAddr, to: &SocketAddr, bytes: &[u8]) -> Value {
